@@ -1,8 +1,107 @@
-import BddVerif.Drive.Util
-/-! Driver for C02 — stub, to be written. -/
-namespace B.Drive.C02
-open B B.Drive
+import BddVerif.Drive.Tables
+import BddVerif.Gen.OpTables
+import Std.Data.HashMap
+/-!
+Driver for C02 (canonical form through any history).
 
-def handle (key : String) (_ins _obs : List String) : Verdict := Verdict.bad ("key " ++ key)
+Predicate on the OBSERVED results of a program (independent of the model):
+  * every produced Bdd is canonical (`isCanon`: reduced, ordered, children before parents, root last,
+    no unreachable node, high-first post-order) and has the program's variable count,
+  * any two values of the history (initial or produced) with equal truth tables have equal node arrays,
+  * `is_false`/`is_true` as reported by the library are exact (one node ⇔ contradiction, two ⇔ tautology),
+  * `==`, hash, text and bytes agree with node-array equality (reported by the harness).
+Model agreement: the program is replayed with the Lean models of the operations (those modelled).
+-/
+namespace B.Drive.C02
+open B B.Drive Std
+
+def parseOptVar (s : String) : Option Nat := if s == "-" then none else s.toNat?
+
+/-- the model of one operation; `none` = operation not modelled (yet), `some none` = panic -/
+def modelOp (pool : Array Arr) (f : List String) : Option (Option Arr) :=
+  let p (s : String) : Arr := pool.getD (s.toNat?.getD 0) #[]
+  let builtin (name : String) (a b : String) : Option (Option Arr) :=
+    (Gen.builtin2.lookup name).map fun op => some (applyWithFlip (p a) (p b) op none none none)
+  match f with
+  | ["not", i] => some (some (bddNot (p i)))
+  | ["and", i, j] => builtin "and" i j
+  | ["or", i, j] => builtin "or" i j
+  | ["xor", i, j] => builtin "xor" i j
+  | ["imp", i, j] => builtin "imp" i j
+  | ["iff", i, j] => builtin "iff" i j
+  | ["andnot", i, j] => builtin "and_not" i j
+  | ["ite", i, j, k] => some (some (ternaryApply (p i) (p j) (p k) Gen.ite_ none none none none))
+  | ["bin", t, i, j] => some (some (applyWithFlip (p i) (p j) (op2OfTable t) none none none))
+  | ["limit", t, i, j] => some (some (applyWithFlip (p i) (p j) (op2OfTable t) none none none))
+  | ["fused", t, i, fl, j, fr, fo] =>
+    some (some (applyWithFlip (p i) (p j) (op2OfTable t) (parseOptVar fl) (parseOptVar fr) (parseOptVar fo)))
+  | ["ter", t, i, j, k] => some (some (ternaryApply (p i) (p j) (p k) (op3OfTable t) none none none none))
+  | ["fused3", t, i, fa, j, fb, k, fc, fo] =>
+    some (some (ternaryApply (p i) (p j) (p k) (op3OfTable t) (parseOptVar fa) (parseOptVar fb) (parseOptVar fc) (parseOptVar fo)))
+  | _ => none
+
+structure Acc where
+  pool : Array Arr            -- observed pool (model replays use the OBSERVED operands)
+  fails : List String := []
+  disagree : List String := []
+  modelled : Nat := 0
+  unmodelled : Nat := 0
+  nontrivial : Nat := 0
+
+def checkProgram (n : Nat) (inits : List Arr) (ops results : List String) (eqhash flags : String) : Verdict := Id.run do
+  let mut acc : Acc := { pool := inits.toArray }
+  let mut byTT : HashMap (List Bool) String := {}
+  let useTT := n ≤ 10
+  for a in inits do
+    if useTT then byTT := byTT.insert (ttOf a n).toList (showArr a)
+  let flagArr := flags.toList.toArray
+  let mut idx := 0
+  for (op, res) in ops.zip results do
+    let f := op.splitOn ":"
+    let name := f.headD ""
+    let isNc := name.startsWith "nc"
+    -- model agreement (operands are the observed pool values)
+    match modelOp acc.pool f with
+    | none => acc := { acc with unmodelled := acc.unmodelled + 1 }
+    | some m =>
+      let ms := match m with | some a => showArr a | none => "panic"
+      acc := { acc with modelled := acc.modelled + 1 }
+      if ms != res then acc := { acc with disagree := s!"{op}->{ms}" :: acc.disagree }
+    -- predicate on the observed value
+    if res == "panic" then
+      acc := { acc with pool := acc.pool.push (acc.pool.getD 0 #[]) }
+    else
+      match parseArr? res with
+      | none => acc := { acc with fails := s!"unparsable:{op}" :: acc.fails, pool := acc.pool.push #[] }
+      | some a =>
+        if !isCanon a then acc := { acc with fails := s!"not-canonical:{op}" :: acc.fails }
+        if numVars a != n then acc := { acc with fails := s!"num-vars:{op}" :: acc.fails }
+        if useTT then
+          let tt := (ttOf a n).toList
+          match byTT[tt]? with
+          | some prev => if prev != res then acc := { acc with fails := s!"same-function-different-array:{op}" :: acc.fails }
+          | none => byTT := byTT.insert tt res
+          let isF := tt.all (· == false); let isT := tt.all (· == true)
+          if (a.size == 1) != isF || (a.size == 2) != isT then
+            acc := { acc with fails := s!"constant-size:{op}" :: acc.fails }
+          let fl := flagArr.getD idx '?'
+          if (fl == 'F') != isF || (fl == 'T') != isT then
+            acc := { acc with fails := s!"is_true/is_false:{op}" :: acc.fails }
+        if a.size > 2 && !isNc then acc := { acc with nontrivial := acc.nontrivial + 1 }
+        acc := { acc with pool := acc.pool.push a }
+    idx := idx + 1
+  if eqhash != "eqhash-ok" then acc := { acc with fails := "eq/hash/text/bytes-vs-node-equality" :: acc.fails }
+  return { agree := acc.disagree.isEmpty, model := ";".intercalate acc.disagree.reverse,
+           fail := if acc.fails.isEmpty then none else some (";".intercalate acc.fails.reverse),
+           nontrivial := acc.nontrivial ≥ 2,
+           tags := [s!"n{n}", s!"len{ops.length / 4 * 4}", s!"modelled{if acc.unmodelled == 0 then "All" else "Part"}"] }
+
+def handle (key : String) (ins obs : List String) : Verdict :=
+  match key, ins, obs with
+  | "C02.prog", [n, inits, ops], [results, eqhash, flags] =>
+    match n.toNat?, (inits.splitOn ";").mapM parseArr? with
+    | some n, some is => checkProgram n is (ops.splitOn ";") (results.splitOn ";") eqhash flags
+    | _, _ => Verdict.bad "args"
+  | _, _, _ => Verdict.bad ("key " ++ key)
 
 end B.Drive.C02
